@@ -10,7 +10,7 @@ import (
 
 func init() {
 	register("C02", "sched", &PartDef{
-		Rule:  "rd in {2,3}, no cache: all histories of length <=3 (quick) / <=4 (thorough) over {Seek(b0,1), Seek(b2,0), Seek(b1,len), Read(2), Read(all), ReadByte, Blocked=true} ending in an observing operation, then Close, on files [3 1 2]+EOF and [2 0 3] (no marker); all schedules up to preemption bound 2 (thorough: 3 for length<=3) with HB state caching; oracle = flat model on every operation + no deadlock, panic or goroutine left after Close. Non-trivial: executions with at least one scheduling choice.",
+		Rule:  "rd in {2,3}, no cache: all histories of length <=3 (quick; length 3 on the first file at rd=2) / <=4 (thorough; length 4 on the first file at rd=2) over {Seek(b0,1), Seek(b2,0), Seek(b1,len), Read(2), Read(all), ReadByte, Blocked=true} ending in an observing operation, then Close, on files [3 1 2]+EOF and [2 0 3] (no marker); all schedules up to preemption bound 2 (thorough: 3 for length<=2 and for length 3 on the first file at rd=2) with HB state caching; oracle = flat model on every operation + no deadlock, panic or goroutine left after Close. Non-trivial: executions with at least one scheduling choice.",
 		Gen:   c02gen,
 		Build: readerBuild,
 	})
@@ -54,8 +54,11 @@ func c02gen(tier string) []Spec {
 				if tier == "quick" && len(h) == 3 && (fi == 1 || rd == 3) {
 					continue
 				}
+				if len(h) == 4 && (fi == 1 || rd == 3) {
+					continue // length 4: first file, rd=2 (sized to about an hour on 16 cores)
+				}
 				bound := 2
-				if tier == "thorough" && len(h) <= 3 {
+				if tier == "thorough" && (len(h) <= 2 || len(h) == 3 && fi == 0 && rd == 2) {
 					bound = 3
 				}
 				specs = append(specs, rspec(rParams{Lens: f.lens, Marker: f.marker, RD: rd, Ops: fixOffsets(h, f.lens)}, bound))
